@@ -10,6 +10,7 @@ non-blank probability inside the character's frame window, clipped at 0); winner
 """
 import copy
 import itertools
+import os
 
 import numpy as np
 
@@ -277,6 +278,48 @@ def check_case(case, ctx):
                           f'explicit 0.0 it gives {res[1]}')
             return
         ctx.tag('explicitly-stored-zero-logits')
+    # the command-line tool merges the directories in the order given on the command line (that order decides ties)
+    if len(engines) == 2 and n_lines == 1 and VARIANTS.index(engines[0][0]) % 5 == 1 and all(TRANS[e[0][0]] is not None for e in engines):
+        import contextlib
+        import io
+        import shutil
+        import sys as _sys
+        from pero_ocr.core.layout import PageLayout
+        root = f'/verif/.cache/tmp/c19-cli-{os.getpid()}'
+        shutil.rmtree(root, ignore_errors=True)
+        dirs = [os.path.join(root, 'z_engine'), os.path.join(root, 'a_engine')]          # first engine: the lexicographically LATER name
+        for d, lay in zip(dirs, copy.deepcopy(pristine)):
+            os.makedirs(d)
+            lay.to_pagexml(os.path.join(d, 'page.xml'))
+            lay.save_logits(os.path.join(d, 'page.logits'))
+        loaded = []
+        for d in dirs:
+            pl = PageLayout(file=os.path.join(d, 'page.xml'))
+            pl.load_logits(os.path.join(d, 'page.logits'))
+            loaded.append(pl)
+        mor.merge_layouts(loaded)
+        want_line = list(loaded[0].lines_iterator())[0]
+        old_argv = _sys.argv
+        _sys.argv = ['merge_ocr_results.py', '--output-path', os.path.join(root, 'out')] + dirs
+        try:
+            with contextlib.redirect_stdout(io.StringIO()):
+                mor.main()
+        finally:
+            _sys.argv = old_argv
+        ctx.executed(2)
+        got = PageLayout(file=os.path.join(root, 'out', 'page.xml'))
+        got.load_logits(os.path.join(root, 'out', 'page.logits'))
+        got_line = list(got.lines_iterator())[0]
+        same = got_line.transcription == want_line.transcription and list(got_line.characters) == list(want_line.characters) and \
+            got_line.logits.shape == want_line.logits.shape and abs(got_line.logits - want_line.logits).max() == 0
+        shutil.rmtree(root, ignore_errors=True)
+        if not same:
+            ctx.violation('keeps-most-confident-engine', f'{K}/command-line-tool-differs-from-merge_layouts',
+                          f'engines {engines} written to directories z_engine, a_engine and merged by the command-line tool in that order: '
+                          f'{got_line.transcription!r} with characters {got_line.characters}; merge_layouts on the same files in the same order gives '
+                          f'{want_line.transcription!r} with characters {want_line.characters}')
+            return
+        ctx.tag('command-line-merge')
     outcome = []
     for li in range(n_lines):
         cands = [list(p.lines_iterator())[li] for p in pristine]
@@ -386,5 +429,5 @@ def describe(tier):
                                                'variants': len(VARIANTS)},
         'assumptions': ['the per-character confidence is the documented one (reference implementation in the check)',
                         'engines whose line has no characters (None / empty transcription) have no confidence'],
-        'min_nontrivial': 100, 'required_tags': ['explicitly-stored-zero-logits', 'later-engine-wins', 'exact-tie-at-the-top', 'incremental-merges'],
+        'min_nontrivial': 100, 'required_tags': ['command-line-merge', 'explicitly-stored-zero-logits', 'later-engine-wins', 'exact-tie-at-the-top', 'incremental-merges'],
     }
